@@ -264,6 +264,8 @@ def run_seeded(prop: str, root: str, rc: int, evidence_dir, jobs: int = 16) -> i
         if not (os.path.exists(mp) and os.path.exists(pp)):
             continue
         meta = json.load(open(mp))
+        if meta.get("retired"):
+            continue  # the tree moved on under this change (reason in its meta.json); kept for the record only
         kind = meta.get("kind", "defect")
         owner = meta.get("property") or meta.get("breaks_property")
         if kind == "defect" and owner != prop:
